@@ -104,7 +104,7 @@ fn codes(rep: &Reporter) {
 							json!({"engine":"ENUM","part":"codes","code": c, "text": txt}),
 						),
 					}
-					local.case(hash_of(&("eo", c)), true, "errorobject-roundtrip");
+					local.case_unique("errorobject-roundtrip"); // each code is visited once: distinct by construction
 				}
 			}
 			kinds_seen.fetch_or(mask, Ordering::Relaxed);
